@@ -103,8 +103,14 @@ def _Rrel(r, rt):
     k, d = r[1], r[2]
     if k in (1, 2, 3):
         return rt == ("err", k, d, 0)
-    # Absent / Access / Invalid / Inner at depth d: d keys were consumed before; the key that is not found at depth dn
-    # was the dn-th one, so only dn - 1 keys can have been consumed
+    # the payload is only touched (Inner, kind 6) and validators / conversions only run (Invalid, kind 5) for keys that the
+    # traversal classifies as a leaf
+    if k == 6:
+        return rt == ("ok", d)
+    if k == 5:
+        return rt[0] == "ok" and d <= rt[1]
+    # Absent / Access at depth d: d keys were consumed before; the key that is not found at depth dn was the dn-th one,
+    # so only dn - 1 keys can have been consumed
     if rt[0] != "ok" and rt[1] == 2:
         return d < rt[2]
     rtd = rt[1] if rt[0] == "ok" else rt[2]
@@ -221,6 +227,14 @@ def pred_c01(prog, case, outs, tables):
                 bad.append((j, "a write changed %d leaves: %r" % (len(changed), changed)))
             if changed and not accepted:
                 bad.append((j, "a failed access (%r) changed the tree at %r" % (o[0], changed)))
+            if changed and op.get("_steps") is None:
+                # a key that was not written for a particular node: the documented resolution decides which leaf it designates
+                try:
+                    want, _st = ref_res(prog, op)
+                except Exception:
+                    want = None
+                if want is not None and want[0] != "ok":
+                    bad.append((j, "the key does not designate a leaf (%s at depth %d by the documented walk), yet the write changed %r" % (KIND.get(want[1], "?"), want[2], changed)))
             if accepted and op.get("_steps") is not None and op.get("_tid") and j in tables:
                 ent = [e for e in tables[j] if e[0] == op["_tid"]]
                 if ent and ent[0][1] == 1:
